@@ -129,15 +129,20 @@ Definition validator_avail (r : r1_eaten) (m : nat) : list Q :=
 Definition priorities_ok (r : r1_eaten) (rows : list (list Q)) : bool :=
   forallb (fun mr => usage_ok 100 (snd mr) (validator_avail r (fst mr))) (combine (seq 0 (List.length rows)) rows).
 
-(* the function: Rejected = an IndexError (NMONTHS beyond a series) or one of the assertions fires *)
-Definition min_needs (kcals_daily threshold pf1 conv_kcals_daily : Q) (N : nat) (r : r1_eaten)
+(* the function: Rejected = an IndexError (NMONTHS beyond a series) or one of the assertions fires.
+   `tracked` = include_fat or include_protein of the round-1 results: the two validators of validate_results.py then
+   return without checking anything (the values computed are the same whatever the flags) *)
+Definition min_needs_gen (tracked : bool) (kcals_daily threshold pf1 conv_kcals_daily : Q) (N : nat) (r : r1_eaten)
   : res (list (string * list Q)) :=
   if Nat.ltb (min_len r) N then Rejected else
   let cap := needs_cap kcals_daily threshold pf1 in
   let rows := min_needs_rows cap r N in
-  if within_limits cap rows && sum_ok conv_kcals_daily rows && priorities_ok r rows
+  if within_limits cap rows && (tracked || (sum_ok conv_kcals_daily rows && priorities_ok r rows))
   then Ok (combine (map fst order_table) (map (column rows) (seq 0 (List.length order_table))))
   else Rejected.
+
+(* every shipped simulation: fat and protein not tracked *)
+Definition min_needs := min_needs_gen false.
 
 (* ------------------------------------------------------------------ fill_negatives_with_positives *)
 
